@@ -140,7 +140,7 @@ pub fn run(ctx: &Ctx) -> i32 {
                 for (i, (tag, v, _)) in B3.iter().enumerate() { if i == hi { t.push_str(&format!("{{{tag}:A{other}:B}}")); } else if i == oi && with_other { t.push_str(&format!("{{{tag}:{v}}}")); } }
                 let _ = ov; cases.push((format!("{{3:{t}}}"), String::new(), format!("b3-tag-id-in-value:{host}")));
             } } }
-        for (host, other) in [("CHK", "MAC"), ("MAC", "CHK"), ("PDE", "CHK"), ("MRF", "MAC")] { for with_other in [false, true] {
+        for (host, other) in [("CHK", "MAC"), ("MAC", "CHK"), ("CHK", "PDE"), ("MAC", "SYS")] { for with_other in [false, true] {
             let ov = B5.iter().find(|(t, _)| *t == other).and_then(|(_, v)| *v).unwrap_or("0");
             let t = format!("{{{host}:A{other}:B}}{}", if with_other { format!("{{{other}:{ov}}}") } else { String::new() });
             cases.push((String::new(), format!("{{5:{t}}}"), format!("b5-tag-id-in-value:{host}")));
@@ -151,10 +151,9 @@ pub fn run(ctx: &Ctx) -> i32 {
             let toks_of = |s: &str, b: u8| -> String { match SwiftParser::extract_block(s, b).ok().flatten() { Some(x) => format!("{:?}", block_tokens(&x)), None => "<absent>".into() } };
             match guarded(|| SwiftParser::parse::<swift_mt_message::messages::MT103>(&msg).map(|m| m.to_mt_message())) {
                 Ok(Ok(out)) => {
-                    // known block-5 tags that the Trailer does not model are judged by the block-level sweep above
                     let (w3, g3, w5, g5) = (toks_of(&msg, 3), toks_of(&out, 3), toks_of(&msg, 5), toks_of(&out, 5));
                     if w3 != g3 { a.col.add(format!("C10/message/block3-not-reproduced:{class}"), i as u64, || format!("{w3} -> {g3}"), || json!({"mt": "103", "message": msg})); }
-                    else if w5 != g5 && !["MRF", "PDE", "PDM", "SYS"].iter().any(|t| b5.contains(&format!("{{{t}:"))) { a.col.add(format!("C10/message/block5-not-reproduced:{class}"), i as u64, || format!("{w5} -> {g5}"), || json!({"mt": "103", "message": msg})); }
+                    else if w5 != g5 { a.col.add(format!("C10/message/block5-not-reproduced:{class}"), i as u64, || format!("{w5} -> {g5}"), || json!({"mt": "103", "message": msg})); }
                     else { a.buckets.insert(format!("msgsub:{class}")); }
                 }
                 Ok(Err(e)) => a.col.add(format!("C10/message/wellformed-rejected:{class}"), i as u64, || format!("{e}"), || json!({"mt": "103", "message": msg})),
